@@ -9,6 +9,7 @@ import c_conc
 import c_meta
 import c_struct
 import c_schedapi
+import c_lazy
 import thms
 
 TRUSTED = [
@@ -201,6 +202,7 @@ def make_api_run(pid, with_txn=False, extra=None):
 
 def api_replay(path):
     head = open(path).readline()
+    if "L-lazy" in head: return c_lazy.replay(path)
     return c_struct.replay(path) if "L-struct" in head else c_api.replay(path)
 
 
@@ -211,6 +213,13 @@ def struct_extra(pid):
         out["violations"] += viols
         out["summary"] += f" L-struct scripts={info['scripts']} dumps={info['graph_dumps_compared']} disagreements={info['disagreements']}"
     return f
+
+
+def lazy_extra(tier, seed, out):
+    info, viol = c_lazy.check(tier, seed)
+    out["coverage"]["correspondence_lazy"] = info
+    if viol: out["violations"].append(viol)
+    out["summary"] += f" L-lazy scripts={info['scripts']} disagreements={info['disagreements']}"
 
 
 def meta_c09(tier, seed, out):
@@ -237,7 +246,7 @@ API_TEXT = {
  "C13": ("lift/map invariants on S", "towers of map/lift over sinks, holds, loops and switches"),
  "C14": ("M_txn bracket/quiescence theorems (quiescent_after_close for every set of closures the propagation pushes, set-up closures that queue more set-up work included)", "deep nesting of closure and scoped transactions, idle observables, FRP built by handlers and mapping functions while the transaction closes"),
  "C15": ("send fold theorem on S.addSend", "coalescing sinks with several sends per transaction over nested transactions"),
- "C17": ("Lazy memo-cell theorems + S lazy snapshot semantics", "lazies taken and forced at varying delays"),
+ "C17": ("Lazy memo-cell theorems (one cell: thunk_at_most_once; a heap of memo cells whose thunks force other lazies, with clones and drops: runs_le_one, force_returns_den, clones_agree, force_idempotent on Model/LazyHeap, tied to the real Lazy by level L-lazy) + S lazy snapshot semantics", "lazies taken and forced at varying delays"),
  "C18": ("router = filter equation of S", "routers with duplicate keys, routes requested at any time"),
  "C06": ("collector soundness theorems on M_gc, lifted to the collector graph of every API program by M_struct (run_reachable, struct_sound: recipes of every primitive as client operations of M_gc, compared with the real collector graph at every graphdump, level L-struct) + contract check of the real gc graph", "drops/clones/collections interleaved with transactions; every 2-/3-definition program dropped newest-first"),
  "C07": ("collector completeness/termination theorems on M_gc, lifted to the collector graph of every API program by M_struct (struct_gc_complete, leakcheck_frees_all: after unlistening and dropping everything a collection frees every object, provided no Rust value owns a handle the collector cannot see; d6_witness: thirteen nodes survive when one does; level L-struct ties the recipes, including the rewiring of switch_s/switch_c and the detachment of once driven by the values S computes, to the real graph) + leak check", "abandon programs at any point, drop everything, collect"),
@@ -295,7 +304,7 @@ for _pid in ["C01", "C02", "C04", "C05", "C10", "C11", "C12", "C13", "C14", "C15
     if not _t: continue
     PROPS[_pid] = {
         "modules": thms.MODULES[_pid], "audit_import": thms.MODULES[_pid], "theorems": _t,
-        "run": make_api_run(_pid, with_txn=_pid in ("C01", "C12", "C14"), extra=meta_c09 if _pid == "C09" else struct_extra(_pid) if _pid in ("C06", "C07") else None), "replay": api_replay,
+        "run": make_api_run(_pid, with_txn=_pid in ("C01", "C12", "C14"), extra=meta_c09 if _pid == "C09" else lazy_extra if _pid == "C17" else struct_extra(_pid) if _pid in ("C06", "C07") else None), "replay": api_replay,
         "technique": "Lean 4 theorems on " + API_TEXT[_pid][0] + "; differential correspondence of the real library with the Lean specification S on generated programs",
         "level_text": "Theorems: " + API_TEXT[_pid][0] + ". Tie: every generated script (" + API_TEXT[_pid][1] + ") is executed on the real library in-process and on the executable Lean specification S, outputs compared line by line (callbacks with the line at which they ran, samples, forced lazies, panics, idle observables); any disagreement is minimised and reported with the script as replay.",
         "level_note": "Trusted: Lean kernel (+propext, Classical.choice, Quot.sound), the hand-written S and models, harness and generators. The theorems are about S / the mechanism models; that the code refines S is checked by differential execution, not proved. 64-bit wrapping integers; single-threaded.",
